@@ -182,7 +182,7 @@ static void do_app(const J &in) {
             else { std::string s = op["v"].text(); n = rtosc_message(m, sizeof m, addr.c_str(), op["ty"].s.c_str(), s.c_str()); } }
         if (!n) continue;
         Quiet d; d.obj = &app; memset(loc, 0, sizeof loc); d.loc = loc; d.loc_size = sizeof loc;
-        if (addr == "/palloc") { app1::App::ports.dispatch(m, d, true); continue; }    // the APPLICATION's change callback allocates the sub-object: not library code
+        if (addr == "/palloc" || addr == "/fx_on") { app1::App::ports.dispatch(m, d, true); continue; }    // the APPLICATION's change callback allocates the sub-object: not library code
         rt(k == "set" ? "sugar.set" : "sugar.get", [&] { app1::App::ports.dispatch(m, d, true); return d.matches > 0 ? "match" : "nomatch"; });
     }
 }
